@@ -381,8 +381,10 @@ pub fn gen_clip_vertex(rng: &mut Rng, allow_outside: bool) -> [f32; 4] {
 }
 
 pub fn header(rng: &mut Rng, door: char, tgt: &str, flags: &str, k: usize) -> (String, u32, u32) {
-    let w = 2 + rng.below(14) as u32;
-    let h = 2 + rng.below(14) as u32;
+    // mostly small buffers; one in eight is wide (long scanlines) and low
+    let wide = rng.chance(1, 8);
+    let w = if wide { 40 + rng.below(40) as u32 } else { 2 + rng.below(14) as u32 };
+    let h = if wide { 2 + rng.below(4) as u32 } else { 2 + rng.below(14) as u32 };
     let (l, t, r, b) = if rng.chance(1, 2) {
         (0, 0, w, h)
     } else {
